@@ -252,9 +252,9 @@ theorem pres_phase2 (pq : Pres Q) {g0 : Graph} {ms : List Module} {out : Outcome
 /-- every declaration is the one its name finds -/
 def DeclUniq (g : Graph) : Prop := ∀ d ∈ g.decls, g.decl d.name = some d
 
-/-- functions are declared in module scopes of the script only -/
-def FnOk (g : Graph) (mods : List Nat) : Prop :=
-  ∀ d ∈ g.decls, ∀ tag, d.kind = .fn tag → d.name.scope ∈ mods
+/-- functions are declared in module scopes only: the runtime's (`base`) or the script's -/
+def FnOk (g : Graph) (base mods : List Nat) : Prop :=
+  ∀ d ∈ g.decls, ∀ tag, d.kind = .fn tag → d.name.scope ∈ base ++ mods
 
 theorem insertDecl_decls {g g' : Graph} {n : RName} {k : DKind} {sc : Option Nat}
     (h : g.insertDecl n k sc = .ok g') : g'.decls = g.decls ++ [⟨n, k, sc⟩] ∧ g.decl n = none := by
@@ -289,7 +289,7 @@ theorem insertImport_decls {g g' : Graph} {s : Nat} {t : RName}
     | some _ => rw [hl] at h; cases h
     | none => rw [hl] at h; cases h; rfl
 
-theorem pres_tables (mods : List Nat) : Pres (fun g => DeclUniq g ∧ FnOk g mods) where
+theorem pres_tables (base mods : List Nat) : Pres (fun g => DeclUniq g ∧ FnOk g base mods) where
   wrap := fun g p k q => q
   imp := by
     intro g g' s t q h
@@ -315,10 +315,10 @@ theorem pres_tables (mods : List Nat) : Pres (fun g => DeclUniq g ∧ FnOk g mod
 
 /-! ## `declare_modules` establishes them -/
 
-theorem tables_declareItems (s : Nat) :
-    ∀ (items : List Item) (g g' : Graph) (mods : List Nat), DeclUniq g → FnOk g mods → s ∈ mods →
+theorem tables_declareItems (base : List Nat) (s : Nat) :
+    ∀ (items : List Item) (g g' : Graph) (mods : List Nat), DeclUniq g → FnOk g base mods → s ∈ mods →
       declareItems s items g = .ok g' →
-      DeclUniq g' ∧ FnOk g' mods ∧
+      DeclUniq g' ∧ FnOk g' base mods ∧
       (∀ d ∈ g.decls, d ∈ g'.decls) ∧
       ∀ n tag body, Item.fn n tag body ∈ items → (⟨⟨s, n⟩, .fn tag, none⟩ : Decl) ∈ g'.decls := by
   intro items
@@ -339,13 +339,13 @@ theorem tables_declareItems (s : Nat) :
       | ok g1 =>
         rw [hd] at h
         have hdecls := (insertDecl_decls hd).1
-        have f1 : FnOk g1 mods := by
+        have f1 : FnOk g1 base mods := by
           intro d hm t hk
           rw [hdecls] at hm
           simp only [List.mem_append, List.mem_singleton] at hm
           rcases hm with hm | hm
           · exact f d hm t hk
-          · subst hm; exact hs
+          · subst hm; exact List.mem_append_right _ hs
         obtain ⟨u', f', hkeep, hfn⟩ := ih g1 g' mods (declUniq_insertDecl u hd) f1 hs h
         refine ⟨u', f', fun d hm => hkeep d (by rw [hdecls]; exact List.mem_append_left _ hm), ?_⟩
         intro n' tag' body' hm
@@ -361,7 +361,7 @@ theorem tables_declareItems (s : Nat) :
       | ok g1 =>
         rw [hd] at h
         have hdecls := (insertDecl_decls hd).1
-        have f1 : FnOk g1 mods := by
+        have f1 : FnOk g1 base mods := by
           intro d hm t hk
           rw [hdecls] at hm
           simp only [List.mem_append, List.mem_singleton] at hm
@@ -383,7 +383,7 @@ theorem tables_declareItems (s : Nat) :
         rw [hd] at h
         have hdecls : g1.decls = g.decls ++ [⟨⟨s, n⟩, .ty tag, some (g.wrap s (.type n)).2⟩] :=
           (insertDecl_decls hd).1
-        have f1 : FnOk g1 mods := by
+        have f1 : FnOk g1 base mods := by
           intro d hm t hk
           rw [hdecls] at hm
           simp only [List.mem_append, List.mem_singleton] at hm
@@ -410,9 +410,6 @@ theorem tables_declareItems (s : Nat) :
       intro n' tag' body' hm
       simp only [List.mem_cons, reduceCtorEq, false_or] at hm
       exact hfn n' tag' body' hm
-
-theorem fnOk_mono {g : Graph} {mods mods' : List Nat} (f : FnOk g mods) (h : ∀ x ∈ mods, x ∈ mods') :
-    FnOk g mods' := fun d hd t hk => h _ (f d hd t hk)
 
 /-- `declare_modules` only appends to the list of module scopes -/
 theorem declareModules_prefix :
@@ -450,11 +447,11 @@ theorem declareModules_prefix :
           obtain ⟨ext, he⟩ := ihr _ _ _ _ hh
           exact ⟨(ga.wrap 0 (.module ⟨pv.getD 0, mm.ident⟩ pv)).2 :: ext, by rw [he]; simp⟩
 
-theorem tables_declareModules :
+theorem tables_declareModules (base : List Nat) :
     ∀ (rest done : List Module) (mods : List Nat) (g g' : Graph) (mods' : List Nat),
-      mods.length = done.length → DeclUniq g → FnOk g mods →
+      mods.length = done.length → DeclUniq g → FnOk g base mods →
       declareModules rest mods g = .ok (g', mods') →
-      DeclUniq g' ∧ FnOk g' mods' ∧ (∀ d ∈ g.decls, d ∈ g'.decls) ∧
+      DeclUniq g' ∧ FnOk g' base mods' ∧ (∀ d ∈ g.decls, d ∈ g'.decls) ∧
       ∀ i m s n tag body, (done ++ rest)[i]? = some m → done.length ≤ i → mods'[i]? = some s →
         Item.fn n tag body ∈ m.items → (⟨⟨s, n⟩, .fn tag, none⟩ : Decl) ∈ g'.decls := by
   intro rest
@@ -489,12 +486,16 @@ theorem tables_declareModules :
           (insertDecl_decls hd).1
         have u0 : DeclUniq (g.wrap 0 (.module ⟨pmv.getD 0, m.ident⟩ pmv)).1 := u
         have u2 := declUniq_insertDecl u0 hd
-        have f2 : FnOk g2 (mods ++ [g.scopes.length]) := by
+        have f2 : FnOk g2 base (mods ++ [g.scopes.length]) := by
           intro d hm t hk
           rw [hdecls] at hm
           simp only [List.mem_append, List.mem_singleton] at hm
           rcases hm with hm | hm
-          · exact List.mem_append_left _ (f d hm t hk)
+          · have := f d hm t hk
+            simp only [List.mem_append] at this ⊢
+            rcases this with h' | h'
+            · exact Or.inl h'
+            · exact Or.inr (Or.inl h')
           · subst hm; cases hk
         cases hit : declareItems (g.wrap 0 (.module ⟨pmv.getD 0, m.ident⟩ pmv)).2 m.items g2 with
         | panic x => rw [hit] at h; cases h
@@ -502,7 +503,7 @@ theorem tables_declareModules :
         | ok g3 =>
           rw [hit] at h
           simp only at h
-          obtain ⟨u3, f3, hkeep3, hfn3⟩ := tables_declareItems _ m.items g2 g3 (mods ++ [g.scopes.length]) u2 f2
+          obtain ⟨u3, f3, hkeep3, hfn3⟩ := tables_declareItems base _ m.items g2 g3 (mods ++ [g.scopes.length]) u2 f2
             (by rw [wrap_snd]; simp) hit
           obtain ⟨u4, f4, hkeep4, hfn4⟩ := ih (done ++ [m]) (mods ++ [g.scopes.length]) g3 g' mods'
             (by simp [hl]) u3 f3 h
@@ -612,12 +613,12 @@ theorem getFunction_spec {ms : List Module} {out : Outcome}
   -- the facts about the final graph
   have h0 : declareModules [] [] Graph.new = .ok (Graph.new, []) := rfl
   obtain ⟨hi, hr, inv⟩ := minfo_checkModuleTree h0 h
-  obtain ⟨g1, hd, hq⟩ := pres_phase2 (pres_tables out.mods) h
+  obtain ⟨g1, hd, hq⟩ := pres_phase2 (pres_tables [] out.mods) h
   obtain ⟨g1', hd', _, s2⟩ := checkModuleTree_split inv_new h
   rw [hd] at hd'
   simp only [Res.ok.injEq, Prod.mk.injEq, and_true] at hd'
   subst hd'
-  obtain ⟨u1, f1, _, hfn⟩ := tables_declareModules ms [] [] Graph.new g1 out.mods rfl
+  obtain ⟨u1, f1, _, hfn⟩ := tables_declareModules [] ms [] [] Graph.new g1 out.mods rfl
     (by intro d hd0; cases hd0) (by intro d hd0; cases hd0) hd
   obtain ⟨uq, fq⟩ := hq ⟨u1, f1⟩
   have hil : i < out.mods.length := by rw [hi.len]; exact getElem?_lt hm
@@ -649,7 +650,7 @@ theorem getFunction_spec {ms : List Module} {out : Outcome}
         obtain ⟨hl, ht⟩ := hft
         subst hl ht
         -- it lives in a module scope of the script
-        have hsc := fq d hdm t' hk
+        have hsc : d.name.scope ∈ out.mods := by simpa using fq d hdm t' hk
         obtain ⟨j, hj⟩ := List.getElem?_of_mem hsc
         have hjl : j < ms.length := by have := getElem?_lt hj; rw [hi.len] at this; exact this
         obtain ⟨pj, hpj⟩ := pathTo_exists hi j hjl
@@ -681,6 +682,238 @@ theorem getFunction_spec {ms : List Module} {out : Outcome}
         rw [← e1] at hk
         simp only [DKind.fn.injEq] at hk
         exact hk.symm
+      | err e => rw [hfn'] at hft; cases hft
+      | panic x => rw [hfn'] at hft; cases hft
+    | module => rw [hk] at hft; cases hft
+    | ty t' => rw [hk] at hft; cases hft
+    | const t' => rw [hk] at hft; cases hft
+    | localv t' => rw [hk] at hft; cases hft
+
+/-! ## with registered runtime modules -/
+
+theorem pathTo_head_root {ms : List Module} :
+    ∀ {i : Nat} {l : List Name}, PathTo ms i l → ∀ {h : Name} {t : List Name}, l = h :: t →
+      ∃ (r : Nat) (m : Module), ms[r]? = some m ∧ m.parent = none ∧ m.ident = h := by
+  intro i l hp
+  induction hp with
+  | root hm hpar =>
+    intro h t hl
+    simp only [List.cons.injEq] at hl
+    exact ⟨_, _, hm, hpar, hl.1⟩
+  | child hm hpar hrest ih =>
+    rename_i i m p l0
+    intro h t hl
+    cases l0 with
+    | nil => exact absurd rfl (pathTo_ne_nil hrest)
+    | cons a l1 =>
+      simp only [List.cons_append, List.cons.injEq] at hl
+      obtain ⟨r, mr, h1, h2, h3⟩ := ih (h := a) (t := l1) rfl
+      exact ⟨r, mr, h1, h2, by rw [h3, hl.1]⟩
+
+theorem declareItems_len (s : Nat) :
+    ∀ (items : List Item) (g g' : Graph), declareItems s items g = .ok g' →
+      g.scopes.length ≤ g'.scopes.length := by
+  intro items
+  induction items with
+  | nil => intro g g' h; simp only [declareItems, Res.ok.injEq] at h; rw [h]; exact Nat.le_refl _
+  | cons it rest ih =>
+    intro g g' h
+    cases it with
+    | fn n tag body =>
+      unfold declareItems at h
+      cases hd : g.insertDecl ⟨s, n⟩ (.fn tag) none with
+      | panic x => rw [hd] at h; cases h
+      | err e => rw [hd] at h; cases h
+      | ok g1 =>
+        rw [hd] at h
+        have := ih g1 g' h
+        rw [(insertDecl_ok hd).2.1] at this; exact this
+    | const n tag =>
+      unfold declareItems at h
+      cases hd : g.insertDecl ⟨s, n⟩ (.const tag) none with
+      | panic x => rw [hd] at h; cases h
+      | err e => rw [hd] at h; cases h
+      | ok g1 =>
+        rw [hd] at h
+        have := ih g1 g' h
+        rw [(insertDecl_ok hd).2.1] at this; exact this
+    | ty n tag =>
+      unfold declareItems at h
+      simp only at h
+      cases hd : (g.wrap s (.type n)).1.insertDecl ⟨s, n⟩ (.ty tag) (some (g.wrap s (.type n)).2) with
+      | panic x => rw [hd] at h; cases h
+      | err e => rw [hd] at h; cases h
+      | ok g1 =>
+        rw [hd] at h
+        have := ih g1 g' h
+        rw [(insertDecl_ok hd).2.1, wrap_length] at this; omega
+    | imports ps => unfold declareItems at h; exact ih g g' h
+    | sigProbe id k p => unfold declareItems at h; exact ih g g' h
+
+/-- the scopes `declare_modules` allocates lie above everything that existed -/
+theorem declareModules_lower :
+    ∀ (r : List Module) (ms0 : List Nat) (ga gb : Graph) (msb : List Nat),
+      declareModules r ms0 ga = .ok (gb, msb) → ∀ s ∈ msb, s ∈ ms0 ∨ ga.scopes.length ≤ s := by
+  intro r
+  induction r with
+  | nil =>
+    intro ms0 ga gb msb hh s hs
+    simp only [declareModules, Res.ok.injEq, Prod.mk.injEq] at hh
+    rw [← hh.2] at hs; exact Or.inl hs
+  | cons mm rr ihr =>
+    intro ms0 ga gb msb hh s hs
+    unfold declareModules at hh
+    simp only at hh
+    cases hp : parentScopeOf ms0 mm.parent with
+    | panic x => rw [hp] at hh; cases hh
+    | err e => rw [hp] at hh; cases hh
+    | ok pv =>
+      rw [hp] at hh
+      simp only at hh
+      cases hd : (ga.wrap 0 (.module ⟨pv.getD 0, mm.ident⟩ pv)).1.insertDecl ⟨pv.getD 0, mm.ident⟩ .module
+          (some (ga.wrap 0 (.module ⟨pv.getD 0, mm.ident⟩ pv)).2) with
+      | panic x => rw [hd] at hh; cases hh
+      | err e => rw [hd] at hh; cases hh
+      | ok gc =>
+        rw [hd] at hh
+        simp only at hh
+        cases hi : declareItems (ga.wrap 0 (.module ⟨pv.getD 0, mm.ident⟩ pv)).2 mm.items gc with
+        | panic x => rw [hi] at hh; cases hh
+        | err e => rw [hi] at hh; cases hh
+        | ok gd =>
+          rw [hi] at hh
+          simp only at hh
+          have hlen : ga.scopes.length ≤ gd.scopes.length := by
+            have h1 := declareItems_len _ _ _ _ hi
+            rw [(insertDecl_ok hd).2.1, wrap_length] at h1
+            omega
+          rcases ihr _ _ _ _ hh s hs with h1 | h1
+          · simp only [List.mem_append, List.mem_singleton, wrap_snd] at h1
+            rcases h1 with h1 | h1
+            · exact Or.inl h1
+            · exact Or.inr (by omega)
+          · exact Or.inr (by omega)
+
+/-- **`get_function` finds the function — with any registered runtime modules.** -/
+theorem getFunction_spec_rt {rt ms : List Module} {g0 : Graph} {m0 : List Nat} {out : Outcome}
+    (h0 : declareModules rt [] Graph.new = .ok (g0, m0))
+    (h : checkModuleTree g0 ms = .ok out)
+    {i : Nat} {m : Module} {path' : List Name} {f tag : Nat} {body : Block}
+    (hm : ms[i]? = some m) (hp : PathTo ms i (PKG :: path')) (hf : Item.fn f tag body ∈ m.items) :
+    getFunction out.g (path' ++ [f]) = some tag := by
+  -- the runtime's part
+  obtain ⟨s0, _, _⟩ := step_declareModules rt [] Graph.new g0 m0 inv_new (by intro x hx; cases hx) h0
+  have hirt0 := minfo_declareModules rt [] [] Graph.new g0 m0 inv_new (minfo_nil _) h0
+  simp only [List.nil_append] at hirt0
+  obtain ⟨u0, f0, _, _⟩ := tables_declareModules [] rt [] [] Graph.new g0 m0 rfl
+    (by intro d hd0; cases hd0) (by intro d hd0; cases hd0) h0
+  -- the script's part
+  obtain ⟨hi, hr, inv⟩ := minfo_checkModuleTree h0 h
+  obtain ⟨g1, hd, hq⟩ := pres_phase2 (pres_tables m0 out.mods) h
+  obtain ⟨g1', hd', s1, s2⟩ := checkModuleTree_split s0.1 h
+  rw [hd] at hd'
+  simp only [Res.ok.injEq, Prod.mk.injEq, and_true] at hd'
+  subst hd'
+  have f0' : FnOk g0 m0 [] := by
+    intro d hdm t hk
+    have := f0 d hdm t hk
+    simpa using this
+  obtain ⟨u1, f1, _, hfn⟩ := tables_declareModules m0 ms [] [] g0 g1 out.mods rfl u0 f0' hd
+  obtain ⟨uq, fq⟩ := hq ⟨u1, f1⟩
+  have hirt : MInfo out.g rt m0 := minfo_ext hirt0 (ext_trans s1.2.2 s2.2.2) (Nat.le_trans s1.2.1 s2.2.1)
+  have hlow := declareModules_lower ms [] g0 g1 out.mods hd
+  have hil : i < out.mods.length := by rw [hi.len]; exact getElem?_lt hm
+  have hs : out.mods[i]? = some out.mods[i] := List.getElem?_eq_getElem hil
+  have hmem1 : (⟨⟨out.mods[i], f⟩, .fn tag, none⟩ : Decl) ∈ g1.decls :=
+    hfn i m _ f tag body (by simpa using hm) (Nat.zero_le _) hs hf
+  have hmem : (⟨⟨out.mods[i], f⟩, .fn tag, none⟩ : Decl) ∈ out.g.decls := by
+    obtain ⟨extra, he⟩ := s2.2.2.decls
+    rw [he]; exact List.mem_append_left _ hmem1
+  have hfull := fullName_spec hi hr hp hs f
+  unfold getFunction
+  rw [exportTable_eq]
+  have hkey : (PKG :: (path' ++ [f])).map Seg.id = ((PKG :: path') ++ [f]).map Seg.id := by simp
+  rw [hkey]
+  apply lookup_filterMap_unique
+  · exact ⟨_, hmem, by simp [exportEntry, hfull]⟩
+  · intro d hdm t hft
+    unfold exportEntry at hft
+    cases hk : d.kind with
+    | fn t' =>
+      rw [hk] at hft
+      simp only at hft
+      cases hfn' : fullName out.g d.name with
+      | ok l =>
+        rw [hfn'] at hft
+        simp only [Option.some.injEq, Prod.mk.injEq] at hft
+        obtain ⟨hl, ht⟩ := hft
+        subst hl ht
+        have hsc := fq d hdm t' hk
+        have hname : (⟨d.name.scope, d.name.ident⟩ : RName) = d.name := rfl
+        simp only [List.mem_append] at hsc
+        rcases hsc with hsc | hsc
+        · -- a registered function: its name cannot start with `pkg`
+          exfalso
+          obtain ⟨j, hj⟩ := List.getElem?_of_mem hsc
+          have hjl : j < rt.length := by have := getElem?_lt hj; rw [hirt.len] at this; exact this
+          obtain ⟨pj, hpj⟩ := pathTo_exists hirt j hjl
+          have hfull' := fullName_spec hirt hr hpj hj d.name.ident
+          rw [hname, hfn'] at hfull'
+          simp only [Res.ok.injEq] at hfull'
+          have hpaths := map_id_injective hfull'
+          obtain ⟨h1, _⟩ := List.append_inj' hpaths.symm (by simp)
+          -- both module trees would have a root module called `pkg`
+          obtain ⟨r, mr, hmr, hmrp, hmri⟩ := pathTo_head_root hpj h1
+          obtain ⟨r', mr', hmr', hmrp', hmri'⟩ := pathTo_head_root hp rfl
+          have hrl : r < m0.length := by rw [hirt.len]; exact getElem?_lt hmr
+          have hrl' : r' < out.mods.length := by rw [hi.len]; exact getElem?_lt hmr'
+          obtain ⟨sc1, a1, _, a3⟩ := hirt.recd r mr _ hmr (List.getElem?_eq_getElem hrl)
+          obtain ⟨sc2, b1, _, b3⟩ := hi.recd r' mr' _ hmr' (List.getElem?_eq_getElem hrl')
+          have k1 : sc1.kind = .module ⟨0, PKG⟩ none := by
+            rcases a3 with ⟨_, hk1⟩ | ⟨p, ps, hp1, _⟩
+            · rw [hk1, hmri]
+            · rw [hmrp] at hp1; cases hp1
+          have k2 : sc2.kind = .module ⟨0, PKG⟩ none := by
+            rcases b3 with ⟨_, hk2⟩ | ⟨p, ps, hp1, _⟩
+            · rw [hk2, hmri']
+            · rw [hmrp'] at hp1; cases hp1
+          obtain ⟨⟨d1, hd1, hs1⟩, _⟩ := inv.mok _ sc1 _ _ a1 k1
+          obtain ⟨⟨d2, hd2, hs2⟩, _⟩ := inv.mok _ sc2 _ _ b1 k2
+          rw [hd1] at hd2
+          cases hd2
+          rw [hs1] at hs2
+          simp only [Option.some.injEq] at hs2
+          have hb1 : m0[r] < g0.scopes.length := hirt0.bound _ (List.getElem_mem hrl)
+          have hb2 := hlow _ (List.getElem_mem hrl')
+          simp only [List.not_mem_nil, false_or] at hb2
+          omega
+        · obtain ⟨j, hj⟩ := List.getElem?_of_mem hsc
+          have hjl : j < ms.length := by have := getElem?_lt hj; rw [hi.len] at this; exact this
+          obtain ⟨pj, hpj⟩ := pathTo_exists hi j hjl
+          have hfull' := fullName_spec hi hr hpj hj d.name.ident
+          rw [hname, hfn'] at hfull'
+          simp only [Res.ok.injEq] at hfull'
+          have hpaths := map_id_injective hfull'
+          obtain ⟨h1, h2⟩ := List.append_inj' hpaths.symm (by simp)
+          simp only [List.cons.injEq, and_true] at h2
+          have hji : j = i := pathTo_injective (uniq_of_minfo hi inv.mok) hpj (by rw [h1]; exact hp)
+          subst hji
+          rw [hs] at hj
+          simp only [Option.some.injEq] at hj
+          have hdn : d.name = ⟨out.mods[j], f⟩ := by
+            cases hdd : d.name with
+            | mk sc id =>
+              rw [hdd] at hj h2
+              simp only at hj h2
+              rw [← hj, h2]
+          have e1 := uq d hdm
+          have e2 := uq _ hmem
+          simp only at e2
+          rw [hdn, e2] at e1
+          simp only [Option.some.injEq] at e1
+          rw [← e1] at hk
+          simp only [DKind.fn.injEq] at hk
+          exact hk.symm
       | err e => rw [hfn'] at hft; cases hft
       | panic x => rw [hfn'] at hft; cases hft
     | module => rw [hk] at hft; cases hft
